@@ -12,6 +12,7 @@ the components `canonComps` builds from that — enough to show that `canonParts
 -/
 set_option linter.unusedSimpArgs false
 set_option linter.unusedVariables false
+set_option linter.unusedSectionVars false
 
 namespace Ural.CanonRoundTrip
 open Ural.Py Ural.UrlParts Ural.Quote Ural.Canonicalize Ural.UrlRoundTrip
@@ -1161,5 +1162,235 @@ theorem mem_canonQuery {c : Char} {quoted : Bool} {q : Str} (h : c ∈ canonQuer
       obtain ⟨z, hz, rfl⟩ := qslStrs_quoteQsl _ x hx
       obtain ⟨y, hy, rfl⟩ := qslStrs_unquoteQsl _ z hz
       exact ⟨y, qslStrs_safeQslIter q y hy, by simpa [requote] using hc⟩
+
+/-! ## what `parseUrl` returns on a cleaned string -/
+
+structure FromParse (S rest : Str) (p : Parsed) : Prop where
+  split : SplitFacts S rest ⟨p.scheme, p.netloc, p.path, p.query, p.fragment⟩
+  user : p.username = username p.netloc
+  pass : p.password = password p.netloc
+  host : p.hostname = hostname p.netloc
+  port : Py.port p.netloc = some p.port
+  noCtl_rest : NoCtl rest
+  shaped : SchemeShaped S
+
+theorem fromParse {c S rest : Str} (h : Cleaned c S rest) {p : Parsed}
+    (hp : parseUrl c = some p) : FromParse S rest p := by
+  unfold parseUrl at hp
+  cases hr : urlsplit c [] with
+  | none => rw [hr] at hp; cases hp
+  | some r =>
+    rw [hr] at hp
+    simp only at hp
+    cases hpo : Py.port r.netloc with
+    | none => rw [hpo] at hp; cases hp
+    | some po =>
+      rw [hpo] at hp
+      simp only [Option.some.injEq] at hp
+      subst hp
+      refine ⟨splitFacts h hr, rfl, rfl, rfl, hpo, ?_, h.shaped⟩
+      intro x hx
+      apply h.noCtl
+      rw [h.eq]; simp [hx]
+
+/-! ## more character facts -/
+
+theorem lowerChar_of_not_upper {d : Char} (hn : ¬ (65 ≤ d.toNat ∧ d.toNat ≤ 90)) :
+    lowerChar d = d := by
+  unfold lowerChar
+  have : ¬ ('A' ≤ d ∧ d ≤ 'Z') := by
+    simp only [char_le_iff]
+    have e1 : 'A'.toNat = 65 := rfl
+    have e2 : 'Z'.toNat = 90 := rfl
+    rw [e1, e2]; exact hn
+  rw [if_neg this]
+
+theorem isAsciiAlpha_iff (c : Char) :
+    isAsciiAlpha c = true ↔ (97 ≤ c.toNat ∧ c.toNat ≤ 122) ∨ (65 ≤ c.toNat ∧ c.toNat ≤ 90) := by
+  simp only [isAsciiAlpha, Bool.or_eq_true, decide_eq_true_eq, char_le_iff]
+  have e1 : 'a'.toNat = 97 := rfl
+  have e2 : 'z'.toNat = 122 := rfl
+  have e3 : 'A'.toNat = 65 := rfl
+  have e4 : 'Z'.toNat = 90 := rfl
+  rw [e1, e2, e3, e4]
+
+theorem isAsciiAlpha_lowerChar {c : Char} (h : isAsciiAlpha c = true) :
+    isAsciiAlpha (lowerChar c) = true := by
+  rw [isAsciiAlpha_iff] at h ⊢
+  rw [lowerChar_toNat]
+  split <;> omega
+
+theorem isSchemeChar_lowerChar {c : Char} (h : isSchemeChar c = true) :
+    isSchemeChar (lowerChar c) = true := by
+  by_cases hu : 65 ≤ c.toNat ∧ c.toNat ≤ 90
+  · have : isAsciiAlpha (lowerChar c) = true :=
+      isAsciiAlpha_lowerChar ((isAsciiAlpha_iff c).2 (Or.inr hu))
+    simp [isSchemeChar, this]
+  · rw [lowerChar_of_not_upper hu]; exact h
+
+theorem schemeShaped_lower {S : Str} (h : SchemeShaped S) : SchemeShaped (lower S) := by
+  obtain ⟨⟨c, r, rfl, hc⟩, hall⟩ := h
+  refine ⟨⟨lowerChar c, lower r, rfl, isAsciiAlpha_lowerChar hc⟩, ?_⟩
+  apply List.all_eq_true.2
+  intro x hx
+  simp only [Py.lower, List.mem_map] at hx
+  obtain ⟨d, hd, rfl⟩ := hx
+  exact isSchemeChar_lowerChar (List.all_eq_true.1 hall d hd)
+
+theorem digit_not_ctl {c : Char} (h : isAsciiDigit c = true) : isControlChar c = false := by
+  simp only [isAsciiDigit, decide_eq_true_eq, char_le_iff] at h
+  have e5 : '0'.toNat = 48 := rfl
+  have e6 : '9'.toNat = 57 := rfl
+  rw [e5, e6] at h
+  apply not_ctl_of_range; omega
+
+/-! ## membership in the printed netloc -/
+
+theorem mem_authPart {c : Char} {U P : Str} (h : c ∈ authPart U P) :
+    c ∈ U ∨ c ∈ P ∨ c = ':' ∨ c = '@' := by
+  unfold authPart at h
+  split at h
+  · simp only [List.mem_append, List.mem_cons, List.not_mem_nil, or_false] at h
+    rcases h with (h | h | h) | h
+    · exact Or.inl h
+    · exact Or.inr (Or.inr (Or.inl h))
+    · exact Or.inr (Or.inl h)
+    · exact Or.inr (Or.inr (Or.inr h))
+  · split at h
+    · simp only [List.mem_append, List.mem_cons, List.not_mem_nil, or_false] at h
+      rcases h with h | h
+      · exact Or.inl h
+      · exact Or.inr (Or.inr (Or.inr h))
+    · simp at h
+
+theorem mem_strOf_host {puny : Str → Str} {o : Option Str} {c : Char}
+    (h : c ∈ strOf (match o with
+      | some h => if h.isEmpty then some h else some (canonHost puny h)
+      | none => none)) : ∃ h0, o = some h0 ∧ c ∈ canonHost puny h0 := by
+  cases o with
+  | none => simp [strOf_none] at h
+  | some u =>
+    by_cases hu : u.isEmpty = true
+    · have : u = [] := by simpa using hu
+      subst this
+      simp [strOf_some] at h
+    · simp only [hu, Bool.false_eq_true, if_false, strOf_some] at h
+      exact ⟨u, rfl, h⟩
+
+/-! ## the components `canonComps` builds -/
+
+section
+variable {puny : Str → Str} (hpc : PunyClean puny) (quoted sf : Bool) {S rest : Str} {p : Parsed}
+  (h : FromParse S rest p)
+include hpc h
+
+theorem netloc_sub_rest : p.netloc ⊆ rest := h.split.sub_netloc
+
+/-- a character of the new user (password): it comes from re-quoting the old one -/
+theorem user_mem {c : Char} (hc : c ∈ strOf (canonComps puny quoted sf p).user) :
+    ∃ u, u ⊆ p.netloc ∧ ':' ∉ u ∧ p.username = some u ∧ c ∈ requote quoted unquoteAuthItem u := by
+  obtain ⟨u, hu, hcu⟩ := mem_strOf_canonOpt (by simpa [canonComps] using hc)
+  have := (netlocFacts p.netloc).user_sub u (by rw [← h.user]; exact hu)
+  exact ⟨u, this.1, this.2, hu, hcu⟩
+
+theorem pass_mem {c : Char} (hc : c ∈ strOf (canonComps puny quoted sf p).pass) :
+    ∃ u, u ⊆ p.netloc ∧ p.password = some u ∧ c ∈ requote quoted unquoteAuthItem u := by
+  obtain ⟨u, hu, hcu⟩ := mem_strOf_canonOpt (by simpa [canonComps] using hc)
+  have := (netlocFacts p.netloc).pass_sub u (by rw [← h.pass]; exact hu)
+  exact ⟨u, this, hu, hcu⟩
+
+theorem host_mem {c : Char} (hc : c ∈ strOf (canonComps puny quoted sf p).host) :
+    ∃ h0, LowerOf h0 p.netloc ∧ '@' ∉ h0 ∧ p.hostname = some h0 ∧ c ∈ canonHost puny h0 := by
+  have he : (canonComps puny quoted sf p).host = (match p.hostname with
+      | some h => if h.isEmpty then some h else some (canonHost puny h)
+      | none => none) := by
+    simp only [canonComps]
+    cases p.hostname <;> rfl
+  rw [he] at hc
+  obtain ⟨h0, hh, hch⟩ := mem_strOf_host hc
+  have := (netlocFacts p.netloc).host_lower h0 (by rw [← h.host]; exact hh)
+  exact ⟨h0, this.1, this.2.1, hh, hch⟩
+
+/-- a delimiter of the authority that is not in the old netloc is not in the new user,
+password or host -/
+theorem delim_not_in_comps {d : Char} (hd : d ∈ ['/', '?', '#']) :
+    d ∉ strOf (canonComps puny quoted sf p).user ∧ d ∉ strOf (canonComps puny quoted sf p).pass ∧
+    d ∉ strOf (canonComps puny quoted sf p).host := by
+  have hnl : d ∉ p.netloc := by
+    intro hm
+    have := h.split.nodelim d hm
+    simp only [List.mem_cons, List.not_mem_nil, or_false] at hd
+    rcases hd with rfl | rfl | rfl <;> exact absurd this (by decide)
+  have hd' : d ∈ ['@', ':', '/', '?', '#', '[', ']'] := by
+    simp only [List.mem_cons, List.not_mem_nil, or_false] at hd ⊢
+    rcases hd with rfl | rfl | rfl <;> simp
+  have hbad : isPunyBad d = true := by
+    simp only [List.mem_cons, List.not_mem_nil, or_false] at hd
+    rcases hd with rfl | rfl | rfl <;> decide
+  refine ⟨?_, ?_, ?_⟩
+  · intro hm
+    obtain ⟨u, hsub, _, _, hcu⟩ := user_mem hpc quoted sf h hm
+    exact requote_auth_not_mem hd' quoted u (fun hh => hnl (hsub hh)) hcu
+  · intro hm
+    obtain ⟨u, hsub, _, hcu⟩ := pass_mem hpc quoted sf h hm
+    exact requote_auth_not_mem hd' quoted u (fun hh => hnl (hsub hh)) hcu
+  · intro hm
+    obtain ⟨h0, hl, _, _, hch⟩ := host_mem hpc quoted sf h hm
+    have := canonHost_bad puny hpc h0 hbad hch
+    exact hl.not_mem hnl (punyBad_not_lower hbad) this
+
+theorem noCtl_netloc_old : NoCtl p.netloc := NoCtl.of_subset h.split.sub_netloc h.noCtl_rest
+
+theorem noCtl_comps :
+    NoCtl (strOf (canonComps puny quoted sf p).user) ∧
+    NoCtl (strOf (canonComps puny quoted sf p).pass) ∧
+    NoCtl (strOf (canonComps puny quoted sf p).host) := by
+  have hn := noCtl_netloc_old hpc h
+  refine ⟨?_, ?_, ?_⟩
+  · intro c hc
+    obtain ⟨u, hsub, _, _, hcu⟩ := user_mem hpc quoted sf h hc
+    exact noCtl_requote quoted _ (NoCtl.of_subset hsub hn) c hcu
+  · intro c hc
+    obtain ⟨u, hsub, _, hcu⟩ := pass_mem hpc quoted sf h hc
+    exact noCtl_requote quoted _ (NoCtl.of_subset hsub hn) c hcu
+  · intro c hc
+    obtain ⟨h0, hl, _, _, hch⟩ := host_mem hpc quoted sf h hc
+    exact noCtl_canonHost puny hpc (hl.noCtl hn) c hch
+
+/-- the hypotheses of `accessors_unsplitNetloc` hold for the new components, provided the
+old host holds no bracket -/
+theorem accessor_hyps (hbr : ∀ h0, p.hostname = some h0 → '[' ∉ h0 ∧ ']' ∉ h0) :
+    ':' ∉ strOf (canonComps puny quoted sf p).user ∧
+    ('@' ∉ strOf (canonComps puny quoted sf p).host ∧ '[' ∉ strOf (canonComps puny quoted sf p).host ∧
+      ']' ∉ strOf (canonComps puny quoted sf p).host) ∧
+    (∀ n ∈ (canonComps puny quoted sf p).port, n ≤ 65535) := by
+  refine ⟨?_, ⟨?_, ?_, ?_⟩, ?_⟩
+  · intro hm
+    obtain ⟨u, _, hcol, _, hcu⟩ := user_mem hpc quoted sf h hm
+    exact requote_auth_not_mem (by simp) quoted u hcol hcu
+  · intro hm
+    obtain ⟨h0, _, hat, _, hch⟩ := host_mem hpc quoted sf h hm
+    exact hat (canonHost_bad puny hpc h0 (by decide) hch)
+  · intro hm
+    obtain ⟨h0, _, _, hh, hch⟩ := host_mem hpc quoted sf h hm
+    exact (hbr h0 hh).1 (canonHost_bad puny hpc h0 (by decide) hch)
+  · intro hm
+    obtain ⟨h0, _, _, hh, hch⟩ := host_mem hpc quoted sf h hm
+    exact (hbr h0 hh).2 (canonHost_bad puny hpc h0 (by decide) hch)
+  · intro n hn
+    have hle := (netlocFacts p.netloc).port_le
+    simp only [canonComps] at hn
+    cases hpp : p.port with
+    | none => rw [hpp] at hn; simp at hn
+    | some m =>
+      rw [hpp] at hn
+      simp only at hn
+      split at hn
+      · simp at hn
+      · simp only [Option.mem_def, Option.some.injEq] at hn
+        subst hn
+        exact hle m (by rw [h.port, hpp])
+
+end
 
 end Ural.CanonRoundTrip
